@@ -623,7 +623,7 @@ package controller
 // auto-discovery the bounds used are the cloud group's own, refreshed each scan.
 //@ func (*Controller).RunOnce(c) (err)
 //@   requires ctlInv(c)
-//@   requires [C03] forall i, j :: 0 <= i && i < j && j < len(c.Opts.NodeGroups) ==> c.nodeGroups[c.Opts.NodeGroups[i].Name] != c.nodeGroups[c.Opts.NodeGroups[j].Name]
+//@   requires [C03,C04] forall i, j :: 0 <= i && i < j && j < len(c.Opts.NodeGroups) ==> c.nodeGroups[c.Opts.NodeGroups[i].Name] != c.nodeGroups[c.Opts.NodeGroups[j].Name]
 //@   modifies Jlen, Jkind, Jname, Jnode, Jok, Jesc, Jnum, Jerr, TGT, clock, nTaintOK, nUntaintOK, getSeen, nGet, nKFail, LNb, LNo, LNl, LNby, LNok, LPb, LPo, LPl, nScans, nBuildFail, c.cloudProvider
 //@   modifies mapvals(c.nodeGroups), allof("[]string")
 //@   ensures [C20] err == nil ==> ctlInv(c)
@@ -632,6 +632,8 @@ package controller
 //@   ensures [C12] err == nil ==> nScans == old(nScans) + len(c.Opts.NodeGroups)
 //@   ensures [C19] forall k :: old(Jlen) <= k && k < Jlen && Jkind[k] == C_DELNODE && isNotInGroup(Jerr[k]) ==> isNotInGroup(err)
 //@   ensures [C03] err == nil ==> (forall i :: 0 <= i && i < len(c.Opts.NodeGroups) && c.Opts.NodeGroups[i].MinNodes == 0 && c.Opts.NodeGroups[i].MaxNodes == 0 ==> c.nodeGroups[c.Opts.NodeGroups[i].Name].Opts.MinNodes == cmin(c.Opts.NodeGroups[i].CloudProviderGroupName) && c.nodeGroups[c.Opts.NodeGroups[i].Name].Opts.MaxNodes == cmax(c.Opts.NodeGroups[i].CloudProviderGroupName))
+// C03/C04: ... and only then: a group configured with bounds of its own keeps them (the cloud group's bounds never replace a configured max_nodes)
+//@   ensures [C03,C04] err == nil ==> (forall i :: 0 <= i && i < len(c.Opts.NodeGroups) && !(c.Opts.NodeGroups[i].MinNodes == 0 && c.Opts.NodeGroups[i].MaxNodes == 0) ==> c.nodeGroups[c.Opts.NodeGroups[i].Name].Opts.MinNodes == old(c.nodeGroups[c.Opts.NodeGroups[i].Name].Opts.MinNodes) && c.nodeGroups[c.Opts.NodeGroups[i].Name].Opts.MaxNodes == old(c.nodeGroups[c.Opts.NodeGroups[i].Name].Opts.MaxNodes))
 //@ loop #0
 //@   modifies c.cloudProvider
 //@   invariant ctlInv(c) && nBuildFail == old(nBuildFail) && Jlen == old(Jlen) && nScans == old(nScans)
@@ -643,6 +645,7 @@ package controller
 //@   invariant nScans == old(nScans) + #i
 //@   invariant nBuildFail == old(nBuildFail)
 //@   invariant [C19] forall k :: old(Jlen) <= k && k < Jlen && Jkind[k] == C_DELNODE ==> !isNotInGroup(Jerr[k])
+//@   invariant [C03,C04] forall i :: 0 <= i && i < len(c.Opts.NodeGroups) && !(c.Opts.NodeGroups[i].MinNodes == 0 && c.Opts.NodeGroups[i].MaxNodes == 0) ==> c.nodeGroups[c.Opts.NodeGroups[i].Name].Opts.MinNodes == old(c.nodeGroups[c.Opts.NodeGroups[i].Name].Opts.MinNodes) && c.nodeGroups[c.Opts.NodeGroups[i].Name].Opts.MaxNodes == old(c.nodeGroups[c.Opts.NodeGroups[i].Name].Opts.MaxNodes)
 //@   invariant [C03] forall i :: 0 <= i && i < #i && c.Opts.NodeGroups[i].MinNodes == 0 && c.Opts.NodeGroups[i].MaxNodes == 0 ==> c.nodeGroups[c.Opts.NodeGroups[i].Name].Opts.MinNodes == cmin(c.Opts.NodeGroups[i].CloudProviderGroupName) && c.nodeGroups[c.Opts.NodeGroups[i].Name].Opts.MaxNodes == cmax(c.Opts.NodeGroups[i].CloudProviderGroupName)
 
 // ---------------------------------------------------------------- node_group.go: attribution of pods and nodes (C14)
@@ -710,8 +713,14 @@ package controller
 // starts from; the configuration handed in is not written (min/max discovery goes into the state's own copy).
 //@ func NewController(opts, stopChan) (c, err)
 //@   requires opts.CloudProviderBuilder != nil && (forall i :: 0 <= i && i < len(opts.NodeGroups) ==> durCacheOK(elemref(opts.NodeGroups, i)))
+//@   requires [C03,C04] forall i, j :: 0 <= i && i < j && j < len(opts.NodeGroups) ==> opts.NodeGroups[i].Name != opts.NodeGroups[j].Name
 //@   modifies nBuildFail
 //@   ensures err == nil ==> c != nil && fresh(c) && ctlInv(c)
+// C03/C04: the configuration itself is never written (auto-discovery is decided from it on every scan), and each
+// group's state starts with the cloud group's bounds exactly when both configured bounds are 0, else with the configured ones
+//@   ensures [C03,C04] forall i :: 0 <= i && i < len(opts.NodeGroups) ==> opts.NodeGroups[i].MinNodes == old(opts.NodeGroups[i].MinNodes) && opts.NodeGroups[i].MaxNodes == old(opts.NodeGroups[i].MaxNodes)
+//@   ensures [C03,C04] err == nil ==> (forall i :: 0 <= i && i < len(opts.NodeGroups) ==> c.nodeGroups[opts.NodeGroups[i].Name].Opts.MinNodes == (opts.NodeGroups[i].MinNodes == 0 && opts.NodeGroups[i].MaxNodes == 0 ? cmin(opts.NodeGroups[i].CloudProviderGroupName) : opts.NodeGroups[i].MinNodes) && c.nodeGroups[opts.NodeGroups[i].Name].Opts.MaxNodes == (opts.NodeGroups[i].MinNodes == 0 && opts.NodeGroups[i].MaxNodes == 0 ? cmax(opts.NodeGroups[i].CloudProviderGroupName) : opts.NodeGroups[i].MaxNodes))
 //@ loop #0
 //@   modifies mapof(nodegroupMap)
+//@   invariant [C03,C04] forall j :: 0 <= j && j < #i ==> nodegroupMap[opts.NodeGroups[j].Name].Opts.MinNodes == (opts.NodeGroups[j].MinNodes == 0 && opts.NodeGroups[j].MaxNodes == 0 ? cmin(opts.NodeGroups[j].CloudProviderGroupName) : opts.NodeGroups[j].MinNodes) && nodegroupMap[opts.NodeGroups[j].Name].Opts.MaxNodes == (opts.NodeGroups[j].MinNodes == 0 && opts.NodeGroups[j].MaxNodes == 0 ? cmax(opts.NodeGroups[j].CloudProviderGroupName) : opts.NodeGroups[j].MaxNodes)
 //@   invariant forall j :: 0 <= j && j < #i ==> has(nodegroupMap, opts.NodeGroups[j].Name) && birth(nodegroupMap[opts.NodeGroups[j].Name]) < now && groupInv(nodegroupMap[opts.NodeGroups[j].Name])
